@@ -242,6 +242,50 @@ Theorem C04_center_pad_exact2 :
   d_itw ceilK 2 (g_center_pad ceilK 2 [sx; sy] g) [of_Z jx; of_Z jy] = d_itw ceilK 2 g [of_Z (jx - ox); of_Z (jy - oy)]%Z.
 Proof. exact (center_pad_exact2 K Kf Kc ceilK floorG leK). Qed.
 
+(* the same in 3-D: pad, center crop, center pad *)
+Theorem C04_pad_exact3 :
+  forall (f s c : nat -> K) (d : nat -> nat -> K) (a0 : bool) (cv : K) (xlo xhi ylo yhi zlo zhi nx ny nz : Z)
+        (im : nimg (K:=K)) (jx jy jz : Z),
+  ishape im = [nx; ny; nz] ->
+  let g := mkG (vtab 3 f) (vtab 3 s) (vtab 3 c) (tab 3 3 d) a0 in
+  let num := [xlo; xhi; ylo; yhi; zlo; zhi] in
+  let out := d_pad 3 cv num im in
+  ishape out = [nx + xlo + xhi; ny + ylo + yhi; nz + zlo + zhi]%Z /\
+  ((0 <= jx - xlo < nx)%Z -> (0 <= jy - ylo < ny)%Z -> (0 <= jz - zlo < nz)%Z ->
+     ival out [jx; jy; jz] = ival im [jx - xlo; jy - ylo; jz - zlo]%Z) /\
+  (~ ((0 <= jx - xlo < nx)%Z /\ (0 <= jy - ylo < ny)%Z /\ (0 <= jz - zlo < nz)%Z) -> ival out [jx; jy; jz] = cv) /\
+  d_itw ceilK 3 (g_pad ceilK leK 3 num g) [of_Z jx; of_Z jy; of_Z jz]
+  = d_itw ceilK 3 g [of_Z (jx - xlo); of_Z (jy - ylo); of_Z (jz - zlo)]%Z.
+Proof. exact (pad_exact3 K Kf Kc ceilK floorG leK). Qed.
+
+Theorem C04_center_crop_exact3 :
+  forall (f s c : nat -> K) (d : nat -> nat -> K) (a0 : bool) (sx sy sz nx ny nz : Z) (im : nimg (K:=K)) (jx jy jz : Z),
+  ishape im = [nx; ny; nz] ->
+  let g := mkG (vtab 3 f) (vtab 3 s) (vtab 3 c) (tab 3 3 d) a0 in
+  nZ ceilK g = [nx; ny; nz] ->
+  let out := d_center_crop 3 [sx; sy; sz] im in
+  let ox := ((nx - Z.min nx sx) / 2)%Z in let oy := ((ny - Z.min ny sy) / 2)%Z in let oz := ((nz - Z.min nz sz) / 2)%Z in
+  ishape out = [Z.min nx sx; Z.min ny sy; Z.min nz sz] /\
+  ((0 <= jx + ox < nx)%Z -> (0 <= jy + oy < ny)%Z -> (0 <= jz + oz < nz)%Z ->
+     ival out [jx; jy; jz] = ival im [jx + ox; jy + oy; jz + oz]%Z) /\
+  d_itw ceilK 3 (g_center_crop ceilK 3 [sx; sy; sz] g) [of_Z jx; of_Z jy; of_Z jz]
+  = d_itw ceilK 3 g [of_Z (jx + ox); of_Z (jy + oy); of_Z (jz + oz)]%Z.
+Proof. exact (center_crop_exact3 K Kf Kc ceilK floorG leK). Qed.
+
+Theorem C04_center_pad_exact3 :
+  forall (f s c : nat -> K) (d : nat -> nat -> K) (a0 : bool) (cv : K) (sx sy sz nx ny nz : Z) (im : nimg (K:=K)) (jx jy jz : Z),
+  ishape im = [nx; ny; nz] ->
+  let g := mkG (vtab 3 f) (vtab 3 s) (vtab 3 c) (tab 3 3 d) a0 in
+  nZ ceilK g = [nx; ny; nz] ->
+  let out := d_center_pad 3 cv [sx; sy; sz] im in
+  let ox := ((Z.max nx sx - nx) / 2)%Z in let oy := ((Z.max ny sy - ny) / 2)%Z in let oz := ((Z.max nz sz - nz) / 2)%Z in
+  ishape out = [Z.max nx sx; Z.max ny sy; Z.max nz sz] /\
+  ((0 <= jx - ox < nx)%Z -> (0 <= jy - oy < ny)%Z -> (0 <= jz - oz < nz)%Z ->
+     ival out [jx; jy; jz] = ival im [jx - ox; jy - oy; jz - oz]%Z) /\
+  d_itw ceilK 3 (g_center_pad ceilK 3 [sx; sy; sz] g) [of_Z jx; of_Z jy; of_Z jz]
+  = d_itw ceilK 3 g [of_Z (jx - ox); of_Z (jy - oy); of_Z (jz - oz)]%Z.
+Proof. exact (center_pad_exact3 K Kf Kc ceilK floorG leK). Qed.
+
 (* 8. shape_agrees (crop and resize; the other operations' shapes are compared in the correspondence) *)
 Theorem C04_shape_agrees_crop2 :
   (forall z : Z, ceilK (of_Z z) = z) -> (forall (x : K) (z : Z), ceilK (x - of_Z z) = (ceilK x - z)%Z) ->
@@ -288,6 +332,7 @@ Print Assumptions C04_ramp_resize3.
 Print Assumptions C04_ramp_resample3.
 Print Assumptions C04_crop_exact3.
 Print Assumptions C04_center_pad_exact2.
+Print Assumptions C04_center_pad_exact3.
 Print Assumptions C04_ramp_chain.
 Print Assumptions C04_traced_index_ops.
 
